@@ -65,6 +65,17 @@ CLAIMED["C08"] = dict(
          "by differential execution; known finding: get() on a zero-span series returns nothing (empty default support).",
     technique="Coq theorems (split-at-count lemmas for sorted lists) + extracted-model/implementation correspondence",
     design="5 C08")
+CLAIMED["C09"] = dict(
+    text="Proof over tables regenerated from the source on every run (translator tools/gen_sites.py): every time-valued argument of every unit-accepting function (43 functions, "
+         "all reviewed) meets the unit variable - converted by format_timestamps, passed on with the unit, or returned through return_timestamps - with no other use of the unit, and "
+         "the suppress_* flags only guard warnings (forallb over the finite generated tables by vm_compute). The float layer is a bit-level PrimFloat model of "
+         "format/return_timestamps compared bit-exactly with the implementation; the lattice theorem (three unit forms of a microsecond-lattice instant store the same double) is "
+         "proved with Flocq when Proofs/FloatTimeProofs.v is present, otherwise checked on 3000+ lattice instants per run (then PARTIAL). Behaviour is decided by an equivariance "
+         "sweep of 35 entry points x {s, ms, us} x 4 flag settings requiring bit-identical results.",
+    note="Trusted: Coq kernel; the translator (syntactic reading of the source); primitive-float axioms for the float layer; the equivariance sweep is testing that supports the "
+         "table theorem (a dropped conversion changes the generated table and breaks the proof; the sweep then supplies the failing input).",
+    technique="translator-regenerated call-site tables + forallb/vm_compute proof; PrimFloat model bit-exact correspondence; equivariance sweep",
+    design="5 C09")
 REASON_TODO = "check not built yet in this round (planned: DESIGN.md section 5)"
 m = {
     "version": 1,
